@@ -954,6 +954,41 @@ func (m *monitor) checkRestartBounds() {
 
 func (m *monitor) afterStep() {
 	m.checkRestartBounds()
+	// classification only: a terminating task that outlived the force-delete timeout of a Job that forbids force deletion
+	if !m.labels["force-forbidden-outlived"] {
+		if to := m.r.tr.Cfg.forceDelete(); to > 0 {
+			now := m.r.w.Clock.Now()
+			for _, p := range m.r.w.API.Pods() {
+				if p.DeletionTimestamp == nil || now.Before(p.DeletionTimestamp.Add(time.Duration(to)*time.Second)) {
+					continue
+				}
+				if ref := metav1.GetControllerOf(p); ref != nil {
+					for _, j := range m.r.w.API.Jobs() {
+						if j.UID == ref.UID && j.Spec.Template != nil && j.Spec.Template.ForbidTaskForceDeletion {
+							m.label("force-forbidden-outlived")
+						}
+					}
+				}
+			}
+		}
+	}
+	// classification only: an Enqueue Job that is waiting because its JobConfig is at the limit
+	if !m.labels["enqueue-waiting-at-limit"] {
+		jobs := m.r.w.API.Jobs()
+		active := map[string]int64{}
+		for _, j := range jobs {
+			if isActive(j) {
+				active[jcUIDOf(j)]++
+			}
+		}
+		for _, j := range jobs {
+			if uid := jcUIDOf(j); uid != "" && isQueued(j) && j.DeletionTimestamp == nil && policyOf(j) == execution.ConcurrencyPolicyEnqueue {
+				if jc := m.jcByUID(uid); jc != nil && active[uid] >= jc.Spec.Concurrency.GetMaxConcurrency() {
+					m.label("enqueue-waiting-at-limit")
+				}
+			}
+		}
+	}
 	// C02: at most one scheduled Job per (JobConfig, schedule time); name, annotation, owner, label agree
 	seen := map[string]string{}
 	for _, j := range m.r.w.API.Jobs() {
